@@ -337,3 +337,24 @@ def maxpool_class(spec):
 			if s["ceil"]:
 				return "ceil"
 	return None
+
+
+def min_nonzero_delta(model, x, ref):
+	"""Smallest non-zero |in(x) - in(ref)| over the inputs of ALL hooked units
+	(element-wise activations and max-pooling layers) of a sequential model,
+	from plain forward passes.  The implementation switches between the
+	ordinary gradient and the secant ratio at |delta_in| = 1e-6 (1e-7 for
+	max-pooling); a non-zero delta below ~1e-5 legitimately perturbs the
+	completeness sum by up to about |delta_in| times the downstream
+	multipliers, so such pairs are not decidable at a 1e-8 tolerance."""
+	best = math.inf
+	hx, hr = x, ref
+	with torch.no_grad():
+		for layer in model:
+			if isinstance(layer, ACT_TYPES + (torch.nn.MaxPool1d,)):
+				a = (hx - hr).abs()
+				nz = a[a > 0]
+				if nz.numel():
+					best = min(best, float(nz.min()))
+			hx, hr = layer(hx), layer(hr)
+	return best
